@@ -29,3 +29,11 @@ package util
 //@   trusted unsafe re-view of the same bytes
 //@   ensures len(result) == len(b) * 8
 //@   assigns nothing
+
+//@ prop C09
+//@ func TimeRange.Overlaps
+//@   ensures result == (t.Min <= max && t.Max >= min)
+//@   assigns nothing
+//@ func TimeRange.Contains
+//@   ensures result == (t.Min <= min && t.Max >= max)
+//@   assigns nothing
